@@ -146,6 +146,15 @@ def o_handler(rec: Recorder, case, soft=False):
                 if key in ns and key != "checksum" and val != ns[key] and not (key == "algs" and sorted(val) == sorted(ns[key])):
                     rec.fail(f"C07/parsehash/{name}/{key}", f"{name}.parsehash reports a {key} that was not configured", "handler_roundtrip", case, repr(val), repr(ns[key]), soft=soft)
                     return
+            # the reported settings (plus checksum) must be enough to rebuild exactly this hash
+            ph2 = {k: v for k, v in ph.items() if not (name == "scram" and k == "algs")}  # scram: the checksum dict carries the algs
+            reportable = all(k in h.setting_kwds for k in ns if k not in ("implicit_rounds",))
+            st2, rebuilt = call(lambda: h(**ph2).to_string()) if reportable else ("skip", None)
+            if st2 != "skip" and (st2 == "err" or rebuilt != hs):
+                missing = [k for k in ("rounds", "salt", "ident", "variant") if k in ns and k not in ph]
+                rec.fail(f"C07/parsehash-incomplete/{name}", f"{name}.parsehash() does not report all the settings the hash was made with (missing {missing}): the hasher cannot be rebuilt from it",
+                         "handler_roundtrip", case, repr(rebuilt), hs, soft=soft)
+                return
         elif st == "err":
             raise ph
     # variants
@@ -238,7 +247,28 @@ def o_inspect(rec: Recorder, case, soft=False):
         rec.fail(f"C07/inspect-reparse/{kind}", f"libpass {kind}: re-inspecting the rendered record gives a different record", "inspect", case, None, None, soft=soft)
 
 
-ORACLES = {"handler_roundtrip": o_handler, "inspect": o_inspect}
+@oracle(PROPERTY, "inspect_candidate")
+def o_inspect_candidate(rec: Recorder, case, soft=False):
+    """case: {kind, text, must_reject?}: any string an inspect helper recognises must re-render to itself; strings that
+    lack / contradict a mandatory field of the record type must not be recognised as that type"""
+    from libpass.inspect.phc import inspect_phc
+    from libpass.inspect.phc.defs import Argon2PHC, BcryptSHA256PHCV2
+
+    kind, text = case["kind"], case["text"]
+    defs = {"phc-argon2": Argon2PHC, "phc-bcrypt-sha256": BcryptSHA256PHCV2, "phc-both": [Argon2PHC, BcryptSHA256PHCV2], "phc-both-rev": [BcryptSHA256PHCV2, Argon2PHC]}[kind]
+    info = inspect_phc(text, defs)
+    if info is None:
+        rec.count("inspect-candidate:rejected")
+        return
+    rec.count("inspect-candidate:recognised")
+    if case.get("must_reject"):
+        rec.fail(f"C07/inspect-accepts-wrong-record/{kind}", f"libpass inspect_phc recognises a string that lacks/contradicts a mandatory field of the record type ({case['must_reject']})", "inspect_candidate", case, repr(info), None, soft=soft)
+        return
+    if info.as_str() != text:
+        rec.fail(f"C07/inspect-render/{kind}", "libpass inspect_phc(h).as_str() != h for a string it recognises", "inspect_candidate", case, info.as_str(), text, soft=soft)
+
+
+ORACLES = {"handler_roundtrip": o_handler, "inspect": o_inspect, "inspect_candidate": o_inspect_candidate}
 
 
 # ---- tasks ------------------------------------------------------------------------------------------
@@ -312,6 +342,15 @@ def t_small_fields(rec, seed, tier):
             for r in (5000, 1000):
                 o_handler(rec, {"name": name, "settings": {"rounds": r, "salt": "abcdefghijklmnop"[:sz]}, "ctx": {}, "secret": "pw", "ref_made": False}, soft=True)
                 n += 1
+    for bare in (False, True):
+        for r in (0, 1, 5, 13):
+            for salt in ("", "a", "abcdefgh", "./zZ09abcdef"):
+                o_handler(rec, {"name": "sun_md5_crypt", "settings": {"rounds": r, "salt": salt, "bare_salt": bare}, "ctx": {}, "secret": "pw", "ref_made": True}, soft=True)
+                n += 1
+    for r in (1, 2, 3, 64, 4095, 4096):
+        for salt in ("....", "zzzz", "ab./"):
+            o_handler(rec, {"name": "bsdi_crypt", "settings": {"rounds": r, "salt": salt}, "ctx": {}, "secret": "pw", "ref_made": True}, soft=True)
+            n += 1
     rec.ev(n)
     rec.nt_bulk(n)
     rec.sample("small-fields", {"scrypt$7$ ln": [1, 5], "bcrypt final salt chars": ".Oeu", "sha-crypt salt sizes": [0, 16]})
@@ -366,6 +405,24 @@ def t_inspect_bank(rec, seed, tier):
         o_inspect(rec, {"kind": kind, "text": text}, soft=True)
 
 
+def t_inspect_candidates(rec, seed, tier):
+    a = "$argon2id$v=19$m=8,t=1,p=4$c29tZXNhbHQ$AAAAAAAAAAAAAAAA"
+    b = "$bcrypt-sha256$v=2,t=2b,r=12$n79VH.0Q2TMWmt3Oqt9uku$Kq4Noyk3094Y2QlB8NdRT8SvGiI4ft2"
+    cands = [
+        ("phc-argon2", a, None), ("phc-argon2", a.replace("$v=19", ""), "version field missing"), ("phc-argon2", a.replace("v=19", "v=16"), "other version"),
+        ("phc-argon2", a.replace("argon2id", "argon2x"), "unknown id"), ("phc-argon2", b, "other record type"),
+        ("phc-bcrypt-sha256", b, None), ("phc-bcrypt-sha256", b.replace("$bcrypt-sha256$", "$bcrypt-sha256$v=2$"), "unexpected version field"),
+        ("phc-bcrypt-sha256", a, "other record type"), ("phc-both", a, None), ("phc-both", b, None), ("phc-both-rev", a, None), ("phc-both-rev", b, None),
+        ("phc-both", a.replace("$v=19", ""), "version field missing"), ("phc-both-rev", a.replace("$v=19", ""), "version field missing"),
+        ("phc-both", b.replace("$bcrypt-sha256$", "$bcrypt-sha256$v=19$"), "unexpected version field"),
+    ]
+    for kind, text, why in cands:
+        rec.ev()
+        rec.nt("cand", kind, text)
+        rec.sample("inspect-candidate", {"kind": kind, "text": text, "must_reject": why})
+        o_inspect_candidate(rec, {"kind": kind, "text": text, "must_reject": why}, soft=True)
+
+
 def t_inspect_hyp(rec, seed, tier):
     from hypothesis import strategies as st
 
@@ -407,5 +464,6 @@ def t_inspect_hyp(rec, seed, tier):
 
 def tasks(tier):
     ts = [{"name": f"h-{name}", "fn": "t_handler", "kw": {"name": name}} for name in sorted(table.T)]
-    ts += [{"name": "small-fields", "fn": "t_small_fields"}, {"name": "inspect-bank", "fn": "t_inspect_bank"}, {"name": "inspect-hyp", "fn": "t_inspect_hyp"}]
+    ts += [{"name": "small-fields", "fn": "t_small_fields"}, {"name": "inspect-bank", "fn": "t_inspect_bank"}, {"name": "inspect-hyp", "fn": "t_inspect_hyp"},
+           {"name": "inspect-candidates", "fn": "t_inspect_candidates"}]
     return ts
